@@ -1,6 +1,7 @@
 import NomtModel.Driver.Parse
 import NomtModel.Store.ImgCheck
 import NomtModel.Store.ImgMerkle
+import NomtModel.Store.Placement
 /-!
 Driver mode `image` (C16 / C19): every stdin line `check <dir> <expected-file>` makes the driver read
 the files of the nomt directory `<dir>` itself, decode them with the Lean decoders of
@@ -131,6 +132,18 @@ def imageLine (line : String) : IO String := do
           let occ ← readOr (dir ++ "/occupied.txt")
           pure (checkOccupied o occ)
         | .error e => pure s!"bad {e}"
+  -- C17: `placement <pre-snapshot-dir>` (the directory also holds `trace.txt`, the events of the operation)
+  | ["placement", dir] =>
+    match ← loadImage dir with
+    | .error e => pure s!"bad {e}"
+    | .ok img =>
+      let some tb ← readOr (dir ++ "/trace.txt") | return "bad io: cannot read the I/O trace"
+      match String.fromUTF8? tb with
+      | none => pure "bad trace: not utf-8"
+      | some t =>
+        match checkPlacement img (parseIoTrace t) with
+        | .ok st => pure s!"ok pre_meta_events={st.preMetaEvents} ln_writes={st.lnWrites} bbn_writes={st.bbnWrites} to_free_pages={st.toFreePages} beyond_frontier={st.beyondFrontier} meta_write_seen={st.sawMeta}"
+        | .error e => pure s!"bad placement: {e}"
   | _ => pure "bad unknown command"
 
 partial def imageLoop (h out : IO.FS.Stream) : IO Unit := do
